@@ -4,7 +4,7 @@
 # 2. runs the quick check of <ID> (and of any further ids given) against the patched copy.
 # Writes /verif/seeded/<id>/{patch.diff,seeded_demo_test.go,notes.md,meta.json}
 id="$1"; shift; others="$@"
-src=/tmp/seed-$id/_deliver
+rnd="${SEED_ROUND:-}"; src=/tmp/seed$rnd-$id/_deliver; dest=/verif/seeded/$id${rnd:+-$rnd}
 [ -f $src/patch.diff ] || { echo "no delivery for $id"; exit 9; }
 export GOFLAGS=-mod=mod GOPROXY=off GOSUMDB=off GOTOOLCHAIN=local
 work=$(mktemp -d /tmp/sv-XXXXXX); trap 'rm -rf "$work"' EXIT
@@ -34,16 +34,16 @@ for c in $id $others; do
   echo "$id: check $c quick -> exit $rc  $first"
   results=$(python3 -c "import json,sys; d=json.loads(sys.argv[1]); d[sys.argv[2]]={'exit':int(sys.argv[3]),'first_detail':sys.argv[4]}; print(json.dumps(d))" "$results" "$c" "$rc" "$first")
 done
-mkdir -p /verif/seeded/$id
-cp $src/patch.diff $src/seeded_demo_test.go $src/notes.md /verif/seeded/$id/ 2>/dev/null
-python3 - "$id" "$ok" "$b" "$s" "$d0" "$d1" "$results" "$dir" <<'PY'
+mkdir -p $dest
+cp $src/patch.diff $src/seeded_demo_test.go $src/notes.md $dest/ 2>/dev/null
+python3 - "$id" "$ok" "$b" "$s" "$d0" "$d1" "$results" "$dir" "$dest" <<'PY'
 import json,sys,subprocess
-id,ok,b,s,d0,d1,results,dir=sys.argv[1:9]
+id,ok,b,s,d0,d1,results,dir,dest=sys.argv[1:10]
 head=subprocess.run(['git','-C','/repo','rev-parse','--short','HEAD'],stdout=subprocess.PIPE,text=True).stdout.strip()
-notes=open('/verif/seeded/%s/notes.md'%id).read()
+notes=open(dest+'/notes.md').read()
 meta={"property":id,"verified":ok=="yes","base_commit":head,"demo_package_dir":dir,
  "what_ran":{"go build ./... (with patch)":int(b),"go test -vet=off -count=1 ./... (with patch, exit code)":int(s),
    "demo test without patch (exit code, 0 = passes)":int(d0),"demo test with patch (exit code, non-zero = fails)":int(d1)},
  "needs_to_manifest":"see notes.md (written by the independent agent)","checks_quick":json.loads(results)}
-json.dump(meta,open('/verif/seeded/%s/meta.json'%id,'w'),indent=1)
+json.dump(meta,open(dest+'/meta.json','w'),indent=1)
 PY
